@@ -486,8 +486,7 @@ fn cmd_replay(a: &Args) -> i32 {
                 return 2;
             }
         };
-        let mut counts = (0, 0);
-        return match probe32::eval_case(&case, true, &mut counts) {
+        return match probe32::eval_both(&case) {
             Some(m) => {
                 println!("REPRODUCED class=builder-mismatch: {}", m.describe());
                 println!("VIOLATION property=C06 replay={}", path);
